@@ -47,7 +47,7 @@ TEXT = {
                  "Not proved: termination of the other productions and absence of run-time panics (nil, index) in them — every Parse* call of the predicate runs under recover with a deadline over corpus, probes, mutations, single-token edits, grafts and soups.",
         "design_ref": "DESIGN.md §4 C03",
         "note": "Trusted: lexer/splitter models (LEX, SPLIT, POS channels), the facts translator tools/extract/parserfacts.go and the abstraction MF/Model/Recovery.lean (only *Error panics modelled).",
-        "technique": "Lean 4 proof (byte-level totality; big-step recovery calculus with a kernel-decided reachability analysis over regenerated facts) + correspondence channels + predicate on the implementation",
+        "technique": "Lean 4 proof (byte-level totality of lexer and splitter; termination of the ParseType and ParseExpr models on every token list with concrete linear fuel bounds; big-step recovery calculus with a kernel-decided reachability analysis over facts regenerated from parser.go) + LEX/SPLIT/POS/TYPE/EXPR correspondence channels + predicate on the implementation",
     },
     "C15": {
         "level": "Lean 4 theorems for EVERY byte string and EVERY printable-predicate: QuoteSQLString(s) lexes as exactly one string token with value s "
@@ -112,7 +112,7 @@ TEXT = {
                  "flow analysis says is the extracted fact, not a theorem.",
         "design_ref": "DESIGN.md §4 C04",
         "note": "Trusted: translator + interpreters (TREE channel); SQL()/parser link by exploration only.",
-        "technique": "Lean 4 proof over regenerated tables (decide +kernel instantiation) + execution of all four operations on every node of explored trees",
+        "technique": "Lean 4 proof over tables regenerated from ast/*.go and over the node-literal sites regenerated from parser.go (decide +kernel instantiation: every literal provably fills the fields SQL() dereferences) + TREE correspondence channel + execution of all four operations on every node of explored trees",
     },
     "C10": {
         "level": "Proof (partial). Lean theorems for every byte string and every lexer state satisfying the lexer invariant: the two lexer modes agree on clean text (noPanic_agrees); "
@@ -123,7 +123,7 @@ TEXT = {
                  "(false at a context-dependent cut: known finding site:BadNode.sliceContext) and that parse functions only pass lexer-produced states; both are evaluated on the implementation for every BadNode of every explored tree.",
         "design_ref": "DESIGN.md §4 C10",
         "note": "Trusted: lexer model (LEX channel, both modes), handler model (HANDLER channel, 0.28 M requests quick / several million thorough), the hook export_verif.go.",
-        "technique": "Lean 4 proof (lexer-mode agreement, handler loop invariant with fuel sufficiency, SQL() gap lemma) + LEX/HANDLER correspondence channels + predicate on the implementation",
+        "technique": "Lean 4 proof (lexer-mode agreement, handler loop invariant with fuel sufficiency, SQL() gap lemma) + regenerated TRANSLATION of the four handlers' switches into a statement language with Lean semantics, proved equal to the modelled handlers + LEX/HANDLER correspondence channels + predicate on the implementation",
     },
     "C07": {
         "level": "Lean 4 theorems about a function-for-function model of the expression ladder of parser.go (parseExpr .. parseLit, the loops, sign folding, "
@@ -144,7 +144,7 @@ TEXT = {
         "note": "Trusted: Lean kernel + standard axioms; the model MF/Model/Expr.lean (validated by the EXPR channel on explored inputs only) and the table in "
                 "MF/Spec/Precedence.lean. Partial: print_minimal is proved on tokens; the bytes-to-tokens step of the printer is checked at run time (rt flag, predicate).",
         "technique": "Lean 4 proof (soundness by induction on fuel over all 28 mutually recursive functions; completeness in eventual form by structural induction "
-                     "on the tree with continuation-passing statements for the loop levels) + model/implementation correspondence + table-driven predicate",
+                     "on the tree with continuation-passing statements for the loop levels) + regenerated translation of the ladder functions of parser.go, kernel-decided equal to the GoogleSQL table (levels, associativity, token spellings) + EXPR model/implementation correspondence + table-driven predicate",
     },
     "C01": {
         "level": "Proof (partial: a fragment). Explored on the real entry points: for every error-free parse of the corpus, probes, mutations and expression soups, SQL() re-parses with the same entry point to a tree equal up to position values and is a fixed point. Two recorded known findings (join method, empty PRIMARY KEY) are recognised by call site. PROVED for the expression fragment M1 of C07 (MF/Props/C01Expr.lean, on the models of lexer.go, parseExpr..parseLit and the SQL() methods): the byte-level round trip `roundtrip_expr_partial` (accepted input => the SQL() text lexes and parses to the same tree, under the necessary hypothesis that no identifier token reads SAFE_CAST / REPLACE_FIELDS), `printed_lexes` (the lexer reads the printed text of ANY tree with lexer-producible leaves as exactly the printer's tokens), `fixed_point_expr`, and a kernel-checked counterexample showing the hypothesis necessary for the model (the corresponding defect of the Go code — `SAFE_CAST` written with back quotes did not re-parse — was found by this proof and is repaired). Proved for the ParseType entry point (lexer and parser model, MF/Model/TypeParse.lean tied to memefish.ParseType by the TYPE channel: every field, position, Pos()/End(), SQL()): for every accepted input, SQL() lexes and parses back to the same tree up to positions and prints the same text (MF.Props.C01.type_roundtrip), and so does every hand-built well-formed tree with non-empty names (type_roundtrip_tree); the lexer side is a piece-by-piece lexing theorem for the printed text (print_lexes). The flag rt of the TYPE channel evaluates the same statement with Go's lexer on Go's SQL() for every OK request. The fragment models' printers and position formulas are proved equal to the interpretation of the regenerated tables (MF/Props/C19Bridge.lean: sql_bridge_expr, sql_bridge_type, prec_bridge, registered under C19): sqlE / sqlT / exprPrec of these theorems are the SQL() bodies, exprPrec and paren that tools/extract reads out of ast/sql.go on every run.",
@@ -174,7 +174,7 @@ TEXT = {
         "level": "Proof (partial: a fragment). Explored on the real entry points: every golden input not marked !bad_ (the maintainers' rendering of each documented production) and its keyword/pseudo-keyword re-casings through the specific entry point and ParseStatement (equal trees), and ';'-joined lists through the list entry points. Plus the reference grammar G written from the documentation (harness/grammar*.go: 202 non-terminals, 504 alternatives; systematic enumeration of every alternative, every optional on/off, list lengths min..min+2, keyword-like identifiers in both cases, and seeded random derivations: 12 k sentences quick / 146 k thorough), each sentence through its entry point and ParseStatement with equal trees and with the lexer's tokens compared to the generator's own terminal list. Ten documented forms that memefish rejects are recorded findings (G-known:*), ten others were repaired. Proved for the ParseType entry point: the documented type grammar G_T (MF/Spec/TypeGrammar.lean, over token kinds, '>>' and '<>' standing for two one-byte tokens) is exactly what the model of ParseType accepts and the tree returned is the derivation tree: soundness (type_sound), completeness for ALL derivations with a concrete fuel (type_complete, type_complete_tree), unambiguity (type_unique), the two as one equivalence (type_accepts_iff); no side condition: since the repair of lookaheadSimpleType a named type whose first path component reads as a simple type name (date.T, string.x) is accepted as G_T says. The model is tied to memefish.ParseType by the TYPE channel (all type texts up to a size bound in six spellings, all token sequences up to length 4 / 6 over the type vocabulary, mutations, soups). Proved for the SELECT core of ParseQuery / ParseStatement (Task X, model MF/Model/Query.lean tied to the code by the QUERY channel on every run): an accepted token list is the yield of the returned tree and a derivation of the documented grammar G_Q (MF.Props.C08.query_sound, query_sound_top), and on inputs starting with SELECT the statement entry point returns exactly the query entry point's answer (query_entry_points_agree).",
         "design_ref": "DESIGN.md §4 C08",
         "note": "Theorems cover the ParseType entry point only and are about the models (tied to the code by the LEX and TYPE channels); every other entry point and node kind is exploration. Known findings are listed in known-findings.txt.",
-        "technique": "Lean 4 proof for ParseType (function-for-function parser model with positions, grammar as an inductive relation, lexer window/concatenation theorems) + TYPE correspondence channel + property predicate evaluated on the implementation (corpus, reference grammar G, grafts, edits, mutations)",
+        "technique": "Lean 4 proof for ParseType (function-for-function parser model with positions, grammar as an inductive relation, soundness + completeness + uniqueness) and for the SELECT core of ParseQuery/ParseStatement (function-for-function model, soundness against the documented grammar, entry-point agreement) + TYPE/QUERY/EXPR correspondence channels + regenerated parser.go data (simpleTypes, parseType dispatch) + property predicate evaluated on the implementation (corpus, reference grammar G, grafts, edits, mutations)",
     },
     "C09": {
         "level": "Proof (partial). Over facts regenerated from the source on every run and a big-step model of panic/recover: the error list is append-only (every assignment to .errors is `x.errors = append(x.errors, e)`), every Bad* literal "
